@@ -12,7 +12,7 @@ use crate::report::{Replay, Violation};
 use crate::subject::*;
 use crate::util::{show, Buf, Rd, J};
 use abyssiniandb::filedb::{FileDb, FileDbMap};
-use abyssiniandb::{DbMap, DbMapKeyType, DbXxx, DbXxxBase};
+use abyssiniandb::{DbMap, DbXxx, DbXxxBase};
 use std::collections::BTreeMap;
 use std::io;
 use std::path::{Path, PathBuf};
